@@ -699,6 +699,29 @@ def monHs (isServer : Bool) (lines : Array String) (cbSpec : String) (statusLine
         if !(wrote101 && hasAccept && hasUpg && hasConn) then out := out ++ ["mon C15 FAIL bad-101-response"]
         else out := out ++ ["mon C15 ok"]
       | none => out := out ++ ["mon C15 FAIL upgraded-without-head"]
+    else if valid && rejecting && finishing then
+      -- a rejection by the callback is written in full and reported as an HTTP error (a 2xx
+      -- "rejection" is refused as CustomResponseSuccessful, and a transport failure may pre-empt both)
+      let transportErr := lines.any fun l => l.startsWith "res hs err Io." || l.startsWith "res hs err Protocol.HandshakeIncomplete" || l.startsWith "res hs err AttackAttempt"
+      match parseCallback cbSpec statusLine with
+      | .reject status line hs body =>
+        if 200 ≤ status && status < 300 then out := out ++ ["mon C15 ok"]
+        else if transportErr then out := out ++ ["mon C15 ok"]
+        else
+          let want := s!"res hs err Http({status},{match body with | some b => hex b | none => "none"})"
+          if !(lines.any fun l => l.startsWith want) then
+            out := out ++ ["mon C15 FAIL rejection-not-reported-as-http-error"]
+          else
+            let infixOf (needle hay : Bytes) : Bool :=
+              (List.range (hay.length + 1)).any fun i => isPrefixOf needle (hay.drop i)
+            let lowerS (v : Bytes) : Bytes := v.map fun b => if 65 ≤ b && b ≤ 90 then b + 32 else b
+            let linesOk := hs.all fun (n, v) => infixOf ([13, 10] ++ lowerS n ++ [58, 32] ++ v ++ [13, 10]) wire
+            let b := body.getD []
+            let bodyOk := wire.drop (wire.length - (4 + b.length)) == [13, 10, 13, 10] ++ b
+            if !(isPrefixOf (line ++ [13, 10]) wire && linesOk && bodyOk) then
+              out := out ++ ["mon C15 FAIL rejection-response-not-written-in-full"]
+            else out := out ++ ["mon C15 ok"]
+      | _ => out := out ++ ["mon C15 ok"]
     else if valid && !rejecting && finishing && !(lines.any fun l => l.startsWith "res hs err Io." || l.startsWith "res hs err Protocol.HandshakeIncomplete" || l.startsWith "res hs err AttackAttempt" || l.startsWith "res hs err Protocol.Custom") then
       out := out ++ ["mon C15 FAIL valid-request-refused"]
     else out := out ++ ["mon C15 ok"]
